@@ -13,8 +13,8 @@ echo "demo without change: $(PYTHONPATH=$COPY timeout 600 /venv/bin/python _seed
 patch -p1 -s < "$DIR/patch.diff" || { echo "patch failed"; exit 3; }
 echo "demo with change:    $(PYTHONPATH=$COPY timeout 600 /venv/bin/python _seed/demo.py >/dev/null 2>&1; echo $?)"
 echo "suite with change:   $(PYTHONPATH=$COPY /venv/bin/python -m pytest -q -p no:cacheprovider tests 2>&1 | tail -1)"
-cd /verif
+cd "${VERIF_HOME:-/verif}"
 for id in "$@"; do
-  s=$(date +%s); out=$(HV_EVIDENCE_DIR=/verif/out/evidence-mutants VERIF_REPO="$COPY" ./check $id quick 2>&1); rc=$?; e=$(date +%s)
+  s=$(date +%s); out=$(HV_EVIDENCE_DIR=$PWD/out/evidence-mutants VERIF_REPO="$COPY" ./check $id quick 2>&1); rc=$?; e=$(date +%s)
   echo "check $id rc=$rc $((e-s))s :: $(echo "$out" | grep -m2 '^violation:' | tr '\n' '|' | cut -c1-300) $(echo "$out" | tail -1 | cut -c1-160)"
 done
